@@ -64,7 +64,7 @@ func VerifC02_Agg() {
 func VerifC02_Step() {
 	ls := []string{"1s:2s,2s:6s", "1s:3s,3s:9s", "2s:6s,6s:12s", "60s:120s,120s:360s"}
 	if vrt.Tier() == 1 {
-		ls = append(ls, "1s:4s,4s:8s", "1s:4s,2s:10s", "5s:30s,20s:80s", "1s:5s,5s:10s")
+		ls = append(ls, "1s:4s,4s:8s", "1s:4s,2s:10s")
 	}
 	txt := ls[vrt.Choose("layout", len(ls))]
 	list, _ := ParseArchiveInfoList(txt)
@@ -138,11 +138,7 @@ func VerifC02_Step() {
 // recomputation continues to the next level only for slots that were stored; every other slot
 // of every archive is left exactly as it was.
 func VerifC02_Chain() {
-	ls := []string{"1s:2s,2s:4s,4s:8s"}
-	if vrt.Tier() == 1 {
-		ls = append(ls, "1s:3s,3s:9s,9s:18s", "1s:4s,2s:10s,10s:30s")
-	}
-	vrtC02Chain(ls)
+	vrtC02Chain([]string{"1s:2s,2s:4s,4s:8s"})
 }
 
 // VerifC02_Write2: the same write-through obligation on 2-level layouts whose coarser ring is
